@@ -85,7 +85,13 @@ pub fn run_attr(case: &AttrCase, ctx: &mut Ctx) -> Verdict {
     };
     let cmd = match build_checked(&case.spec) {
         Built::Ok(c) => c,
-        Built::Invalid(_) => return Verdict::Discard("invalid-config"),
+        // conventional trees are valid by construction: the library's configuration check refusing one is a failure
+        Built::Invalid(p) => {
+            return Verdict::fail(
+                "attribution:valid-definition-refused",
+                format!("a definition that is valid by construction is refused by the configuration check at {}:{}: {}", p.file, p.line, p.message),
+            )
+        }
         Built::Panic(p) => return Verdict::Fail(Failure::from_panic(&p)),
     };
     let Some(exp) = expect(&case.spec, &case.inv, &case.cluster_entry) else {
